@@ -24,7 +24,10 @@
 #include <unistd.h>
 #include <sys/time.h>
 #include <cstring>
+// pure_data is a private member: access only (no behaviour changes)
+#define private public
 #include <gnu_gama/xml/dataparser.h>
+#undef private
 #include <gnu_gama/xml/dataobject.h>
 #include "proto.h"
 
@@ -156,6 +159,16 @@ int main()
       cpu_limit(10);
       parse_doc(unhexs(t[1]), std::atol(t[2].c_str()));
       cpu_limit(0);
+    } else if (t.size() == 3 && t[0] == "pd") {
+      // the real extractions (libstdc++) and the real DataParser::pure_data on the text: `pd <failbit><eofbit> <result>`
+      std::list<GNU_gama::DataObject::Base*> objects;
+      Probe p(objects);
+      std::stringstream istr(unhexs(t[2]));
+      double f; std::string w;
+      for (char c : t[1]) { if (c == 'd') istr >> f; else if (c == 'w') istr >> w; }
+      bool fb = istr.fail(), eb = istr.eof();
+      bool r = p.pure_data(istr);
+      std::cout << "pd " << (fb ? 1 : 0) << (eb ? 1 : 0) << " " << (r ? 1 : 0) << "\n";
     } else std::cout << "bad-op\n";
     std::cout.flush();
   }
